@@ -502,3 +502,67 @@ Definition rules_of (name : string) : list crule :=
 
 Definition decode_model (name : string) (d : tv) (m : cv) : tv :=
   fold_left (apply_rule (Some m)) (rules_of name) (overlay d (Some m)).
+
+(* =====================================================================================
+   Part 5 — the effective configuration: confmap.Conf.Marshal (confmap/internal/mapstructure/
+   encoder.go) on the typed configuration, as handed to ConfigWatcher extensions.
+
+   The encoder walks the typed value by kind: a struct becomes a map keyed by the mapstructure
+   names (squash spliced in), a map a map, a slice a list, and EVERY value — also map values and
+   slice elements — first goes through the encode hooks; TextMarshalerHookFunc turns any
+   encoding.TextMarshaler into its text, which for configopaque.String is the constant
+   "[REDACTED]".  [ev] is the typed configuration restricted to what the property observes:
+   plain scalars, opaque scalars, string maps / string lists (plain or opaque), struct nesting.
+   (omitempty, non-string leaves' rendering and Marshaler hooks are outside this part.) *)
+Inductive ev : Type :=
+| EPlain (s : string)
+| EOpaque (s : string)
+| EStrMap (opaque : bool) (kvs : list (string * string))
+| EStrList (opaque : bool) (l : list string)
+| ERec (fs : list (string * ev)).
+
+Definition redacted : string := "[REDACTED]".
+
+Definition enc_str (opaque : bool) (s : string) : cv := CScalar (if opaque then redacted else s).
+
+Fixpoint encode (v : ev) : cv :=
+  match v with
+  | EPlain s => CScalar s
+  | EOpaque _ => CScalar redacted
+  | EStrMap o kvs => CMap (map (fun kv => (fst kv, enc_str o (snd kv))) kvs)
+  | EStrList o l => CList (map (enc_str o) l)
+  | ERec fs =>
+      CMap ((fix go (fs : list (string * ev)) : list (string * cv) :=
+               match fs with
+               | [] => []
+               | (k, x) :: r => (k, encode x) :: go r
+               end) fs)
+  end.
+
+(* every scalar that occurs anywhere in a configuration value *)
+Fixpoint cv_scalars (c : cv) : list string :=
+  match c with
+  | CNull => []
+  | CScalar s => [s]
+  | CList l => (fix go (l : list cv) : list string :=
+                  match l with [] => [] | x :: r => cv_scalars x ++ go r end) l
+  | CMap kvs => (fix go (kvs : list (string * cv)) : list string :=
+                   match kvs with [] => [] | (_, x) :: r => cv_scalars x ++ go r end) kvs
+  end.
+
+(* the non-secret scalars of a typed configuration *)
+Fixpoint ev_plains (v : ev) : list string :=
+  match v with
+  | EPlain s => [s]
+  | EOpaque _ => []
+  | EStrMap o kvs => if o then [] else map snd kvs
+  | EStrList o l => if o then [] else l
+  | ERec fs => (fix go (fs : list (string * ev)) : list string :=
+                  match fs with [] => [] | (_, x) :: r => ev_plains x ++ go r end) fs
+  end.
+
+Fixpoint ev_get (p : path) (v : ev) : option ev :=
+  match p with
+  | [] => Some v
+  | k :: r => match v with ERec fs => opt_bind (lookup k fs) (ev_get r) | _ => None end
+  end.
